@@ -3,6 +3,7 @@ package homescript
 import (
 	"fmt"
 
+	"github.com/smarthome-go/homescript/v3/homescript/analyzer/ast"
 	"github.com/smarthome-go/homescript/v3/homescript/errors"
 	"github.com/smarthome-go/homescript/v3/homescript/optimizer"
 	pAst "github.com/smarthome-go/homescript/v3/homescript/parser/ast"
@@ -128,6 +129,12 @@ func VerifHarness_PrintStringLiteral() {
 		errors.VerifAssume(r < 0x80)
 		content += string(r)
 	}
+	which := errors.VerifNdIntRange("printer", 0, 1) // 0: parsed tree, 1: analysed tree
+	errors.VerifTag("printer", []string{"parsed", "analysed"}[which])
+	if which == 1 {
+		verifPrintAnalysedLiteral(content)
+		return
+	}
 	tree, _, perr := Parse("fn main() {\n  println(\"X\");\n}\n", verifFile)
 	if perr != nil {
 		errors.VerifInconclusive("template does not parse")
@@ -158,6 +165,71 @@ func VerifHarness_PrintStringLiteral() {
 	got := ""
 	if len(tree2.Functions) == 1 && len(tree2.Functions[0].Body.Statements) == 1 {
 		if st, isE := tree2.Functions[0].Body.Statements[0].(pAst.ExpressionStatement); isE {
+			if c, isC := st.Expression.(pAst.CallExpression); isC && len(c.Arguments.List) == 1 {
+				if l, isL := c.Arguments.List[0].(pAst.StringLiteralExpression); isL {
+					ok = true
+					got = l.Value
+				}
+			}
+		}
+	}
+	errors.VerifAssert("printed-string-literal-keeps-its-place", ok)
+	if ok {
+		errors.VerifAssert("printed-string-literal-keeps-its-content", got == content)
+	}
+}
+
+// verifPrintAnalysedLiteral: the same law for the analysed tree's printer.
+func verifPrintAnalysedLiteral(content string) {
+	an := verifAnalyze("fn main() {\n  println(\"X\");\n}\n", nil, nil, true)
+	if an.hasError {
+		errors.VerifInconclusive("template rejected")
+	}
+	mod := an.modules[verifFile]
+	replaced := false
+	for fi, f := range mod.Functions {
+		if f.Ident.Ident() != "main" {
+			continue
+		}
+		stmt, ok1 := f.Body.Statements[0].(ast.AnalyzedExpressionStatement)
+		if !ok1 {
+			break
+		}
+		call, ok2 := stmt.Expression.(ast.AnalyzedCallExpression)
+		if !ok2 || len(call.Arguments.List) != 1 {
+			break
+		}
+		lit, ok3 := call.Arguments.List[0].Expression.(ast.AnalyzedStringLiteralExpression)
+		if !ok3 {
+			break
+		}
+		lit.Value = content
+		call.Arguments.List[0].Expression = lit
+		stmt.Expression = call
+		f.Body.Statements[0] = stmt
+		mod.Functions[fi] = f
+		replaced = true
+	}
+	if !replaced {
+		errors.VerifInconclusive("string literal not found in the analysed template")
+	}
+	printed := mod.String()
+	tree2, _, perr2 := Parse(printed, verifFile)
+	errors.VerifReached("printed")
+	if perr2 != nil {
+		verifDebug("parse error", perr2.Message, printed)
+	}
+	errors.VerifAssert("printed-string-literal-parses", perr2 == nil)
+	if perr2 != nil {
+		return
+	}
+	ok := false
+	got := ""
+	for _, f := range tree2.Functions {
+		if f.Ident.Ident() != "main" || len(f.Body.Statements) != 1 {
+			continue
+		}
+		if st, isE := f.Body.Statements[0].(pAst.ExpressionStatement); isE {
 			if c, isC := st.Expression.(pAst.CallExpression); isC && len(c.Arguments.List) == 1 {
 				if l, isL := c.Arguments.List[0].(pAst.StringLiteralExpression); isL {
 					ok = true
